@@ -1,7 +1,8 @@
 """C01 — field mode emits exactly the requested fields, in request order.
 Oracle: implementation (general path, fast path, dispatch as `main` does) against the executed
 abstract specification `Spec.specRun`.  Tie: implementation = Lean model on every case."""
-from cases import evaluate, rand_field_case, run_corpus, normalise_field_case
+from cases import evaluate, rand_field_case, run_corpus, normalise_field_case, cli_roundtrip
+from common import build_tuc
 from gen import DELIMS, bytes_upto, all_bounds
 
 LEVEL = "proof"
@@ -38,3 +39,6 @@ def run(chk):
     for c in cases[:3] + cases[-3:]:
         chk.sample({k: (v.decode("latin1") if isinstance(v, bytes) else v) for k, v in c.items() if k != "meta"})
     evaluate(chk, cases, "K-general")
+    # end to end: the real binary on random accepted field-mode command lines vs the model
+    cli_roundtrip(chk, build_tuc(release=False), 2000 if chk.tier == "quick" else 20000,
+                  want=lambda a: len(a) >= 1 and not any(x in a for x in ("-c", "-b", "-l")))
